@@ -131,6 +131,18 @@ def rejected_configurations(ctx, seeds):
         ("yaml: list instead of map", {}, "- a\n- b\n%s"),
         ("yaml: seed key twice", {}, "%sseed: 00\n"),
         ("yaml: garbage after the settings", {}, "%s}{ not yaml\n"),
+        # syntax errors whose reported position is the seed line itself
+        ("yaml: seed line over-indented", {}, "RAW:interface: 127.0.0.1\nport: {PORT}\n    seed: {SEED}\n"),
+        ("yaml: unclosed [ before the seed line", {}, "RAW:interface: 127.0.0.1\nport: [{PORT}\nseed: {SEED}\n"),
+        ("yaml: unterminated quote on the seed line", {}, "RAW:interface: 127.0.0.1\nport: {PORT}\nseed: \"{SEED}\n"),
+        ("yaml: no colon on the seed line", {}, "RAW:interface: 127.0.0.1\nport: {PORT}\nseed {SEED}\n"),
+        ("yaml: tab before the seed key", {}, "RAW:interface: 127.0.0.1\nport: {PORT}\n\tseed: {SEED}\n"),
+        ("yaml: seed line inside a flow map left open", {}, "RAW:interface: 127.0.0.1\nport: {PORT}\nx: {a: 1\nseed: {SEED}\n"),
+        # the seed written with upper-case / mixed-case hex digits (accepted spellings) in a configuration
+        # that is refused for another reason
+        ("UPPER-case seed, batch_size 100", {"seed": "{SEEDU}", "batch_size": 100}, None),
+        ("Mixed-case seed, port 0", {"seed": "{SEEDM}", "port": 0}, None),
+        ("UPPER-case seed, client_stats without directory", {"seed": "{SEEDU}", "client_stats": "on"}, None),
     ]
     for si, seed in enumerate(seeds):
         for label, extra, tmpl in variants:
@@ -138,7 +150,8 @@ def rejected_configurations(ctx, seeds):
                 if source == "env" and (tmpl is not None or label.startswith("yaml")):
                     continue
                 st = {"interface": "127.0.0.1", "port": procmod.free_port(), "seed": seed.hex()}
-                st.update({k: (v.replace("{SEED}", seed.hex()) if isinstance(v, str) else v) for k, v in extra.items()})
+                mixed = "".join(ch.upper() if i % 2 else ch for i, ch in enumerate(seed.hex()))
+                st.update({k: (v.replace("{SEEDU}", seed.hex().upper()).replace("{SEEDM}", mixed).replace("{SEED}", seed.hex()) if isinstance(v, str) else v) for k, v in extra.items()})
                 if source == "env" and isinstance(st.get("seed"), str) and st["seed"].startswith("'"):
                     st["seed"] = st["seed"][1:-1]        # the quotes are YAML syntax, not part of the value
                 st = {k: v for k, v in st.items() if v is not None}
@@ -146,7 +159,10 @@ def rejected_configurations(ctx, seeds):
                 if source == "file":
                     body = "".join("%s: %s\n" % (k, v) for k, v in st.items())
                     path = os.path.join(workdir, "r%d.yaml" % (len(os.listdir(workdir))))
-                    open(path, "w").write((tmpl % body) if tmpl else body)
+                    if tmpl and tmpl.startswith("RAW:"):
+                        open(path, "w").write(tmpl[4:].replace("{PORT}", str(st["port"])).replace("{SEED}", seed.hex()))
+                    else:
+                        open(path, "w").write((tmpl % body) if tmpl else body)
                     arg = path
                 else:
                     for k, v in st.items():
@@ -161,7 +177,8 @@ def rejected_configurations(ctx, seeds):
                 ctx.count("rejected-config:" + label)
                 rep = {"cmd": "rejected-config", "seed": seed.hex(), "source": source, "what": label,
                        "settings": {k: str(v) for k, v in st.items()}, "rc": str(rc), "output": data.decode("utf-8", "replace")[-1500:]}
-                leaked = [name for name, pat in patterns(seed) if pat in data]
+                low = data.lower()       # hex digits in any mixture of cases
+                leaked = [name for name, pat in patterns(seed) if pat in data or (name.endswith(" hex") and pat in low)]
                 if leaked:
                     ctx.violation("property", "the server's output for a refused configuration (%s, %s) contains %s" % (label, source, ", ".join(leaked)), rep); continue
                 ctx.traces_validated += 1
